@@ -326,7 +326,7 @@ def s_cases(thorough):
                      ).map(lambda b: {"t": "bytes", "hex": b.hex()})
     # incompressible data whose gzip form is longer than the decoder's internal buffers (tens of KiB and more)
     bigb = st.builds(lambda seed, n: {"t": "bytes", "gen": [seed, n]}, st.integers(0, 2 ** 32), st.sampled_from([20000, 33000, 40000, 66000, 100000, 140000] if not thorough else
-                                                                                                 [20000, 33000, 40000, 66000, 100000, 140000, 300000, 1100000]))
+                                                                                                 [20000, 33000, 40000, 66000, 100000, 140000, 300000]))
     byts = st.one_of(byts, byts, byts, byts, bigb)
     # characters that text-handling code likes to treat specially, at the start, inside and at the end of a string
     special = st.sampled_from(["\ufeff", "\ufffe", "\u0000", "\ufffd", "\u200b", "\u2028", "\u0085", "\r\n", "\ue000", "\ud7ff", "\U0010ffff", "\u0301", "\u202e", "\x7f", "\x80"])
